@@ -24,31 +24,51 @@ type Case struct {
 	// bookkeeping from the generator (for classes and the open finding's signature)
 	Corruptions int `json:"corruptions"`
 	Depth       int `json:"depth,omitempty"`
+	Blocks      int `json:"blocks,omitempty"` // how many of the nested elements are block elements
 	Quotes      int `json:"quotes,omitempty"`
 	TextBytes   int `json:"text_bytes,omitempty"`
 }
 
 const (
-	timeLimit = 20 * time.Second
-	sizeLimit = 64 << 20
+	timeLimit  = 10 * time.Second // per call: "returns promptly - within seconds" (ordinary calls take milliseconds)
+	totalLimit = 60 * time.Second // per case (dozens of calls): after this the case counts as hung
+	sizeLimit  = 64 << 20
 )
 
 // deepNestingCost is the signature of the open finding "deep-nesting-cost":
-// a markup body that nests 25 or more elements. Rendering cost grows with
-// depth^2 x width (every level re-expands the whole, padded/indented text
-// with a regular expression), so a document of under a kilobyte can take
-// tens of seconds.
-func deepNestingCost(c Case) bool { return c.Depth >= 25 }
+// a markup body that nests 25 or more *block* elements (pre, blockquote,
+// headers, lists, div, p). Rendering cost grows with depth^2 x width (every
+// block level re-expands the whole, padded/indented text of its children with
+// a regular expression), so a document of under a kilobyte can take tens of
+// seconds. Inline nesting of any depth is not part of the finding.
+func deepNestingCost(c Case) bool { return c.Blocks >= 25 }
 
 func exercise(c Case, obj map[string]any) (classes []string, err error) {
+	last := time.Now()
+	lap := func(what string) error {
+		d := time.Since(last)
+		last = time.Now()
+		if d > timeLimit {
+			return fmt.Errorf("%s took %v for a %d-byte document", what, d.Round(time.Millisecond), len(c.Doc))
+		}
+		return nil
+	}
 	item := pub.New(obj, nil)
+	if err := lap("building the item"); err != nil {
+		return classes, err
+	}
 	var total int
 	note := func(what string, s string) error {
 		total += len(s)
 		if total > sizeLimit {
 			return fmt.Errorf("%s: more than %d MiB of output produced for a %d-byte document", what, sizeLimit>>20, len(c.Doc))
 		}
-		return nil
+		// deterministic companion of the time budget: servitor knows eight styles, so a displayed character
+		// needs at most about a hundred bytes of escape codes; far more means the markup is growing without bound
+		if visible := visibleRunes(s); visible > 0 && len(s) > 400*visible+4096 {
+			return fmt.Errorf("%s: %d bytes of output for %d displayed characters (%d bytes each) from a %d-byte document", what, len(s), visible, len(s)/visible, len(c.Doc))
+		}
+		return lap(what)
 	}
 	if coll, ok := item.(*pub.Collection); ok {
 		classes = append(classes, "top:collection")
@@ -105,6 +125,25 @@ func exercise(c Case, obj map[string]any) (classes []string, err error) {
 	return classes, nil
 }
 
+// visibleRunes counts the characters outside escape sequences.
+func visibleRunes(s string) int {
+	n := 0
+	in := false
+	for _, r := range s {
+		switch {
+		case in:
+			if r == 'm' {
+				in = false
+			}
+		case r == 0x1b:
+			in = true
+		default:
+			n++
+		}
+	}
+	return n
+}
+
 func check(c Case) vrep.Result {
 	classes := []string{}
 	if c.Corruptions > 0 {
@@ -150,8 +189,8 @@ func check(c Case) vrep.Result {
 		if o.err != nil {
 			return vrep.Result{Classes: classes, Err: o.err}
 		}
-	case <-time.After(timeLimit):
-		return vrep.Result{Classes: classes, Err: fmt.Errorf("rendering a %d-byte document did not finish within %v (widths %v)", len(c.Doc), timeLimit, c.Widths)}
+	case <-time.After(totalLimit):
+		return vrep.Result{Classes: classes, Err: fmt.Errorf("rendering a %d-byte document did not finish within %v (widths %v)", len(c.Doc), totalLimit, c.Widths)}
 	}
 	if d := time.Since(start); d > 2*time.Second {
 		classes = append(classes, "slow>2s")
@@ -196,17 +235,31 @@ func gen(t *rapid.T) Case {
 	return c
 }
 
-// genDeep: posts and actors whose body nests up to 120 elements.
+// genDeep: posts and actors whose body nests up to 120 block (or mixed) elements, or up to 400 inline elements.
 func genDeep(t *rapid.T) Case {
 	c := Case{}
-	c.Depth = rapid.IntRange(8, 120).Draw(t, "depth")
+	inline := false
+	tags := append(append([]string{}, vgen.BlockTags()...), vgen.InlineNestTags()...)
+	switch rapid.IntRange(0, 9).Draw(t, "family") {
+	case 0, 1: // very deep block nesting: the open finding's region (excluded when listed, and counted)
+		c.Depth = rapid.IntRange(25, 120).Draw(t, "depth")
+	case 2, 3, 4: // inline nesting only, any depth
+		c.Depth = rapid.IntRange(8, 150).Draw(t, "inlinedepth") // 150 inline tags are about 4 KB
+		if rapid.Bool().Draw(t, "nearmax") {
+			c.Depth = rapid.IntRange(100, 150).Draw(t, "inlinedepthhigh")
+		}
+		tags = vgen.InlineNestTags()
+		inline = true
+	default:
+		c.Depth = rapid.IntRange(8, 24).Draw(t, "depth")
+	}
 	payload := rapid.SampledFrom([]string{"two words", "<hr>", "x", "<img src=\"https://x.test/i\" alt=\"some alt text\">", "<pre>a  b\n c</pre>", strings.Repeat("lorem ipsum dolor ", 4)}).Draw(t, "payload")
-	if rapid.IntRange(0, 5).Draw(t, "bigpayload") == 0 {
+	if big := rapid.IntRange(0, 5).Draw(t, "bigpayload"); big == 0 || inline && big <= 2 {
 		payload = strings.Repeat("lorem ipsum dolor sit amet ", rapid.IntRange(10, 80).Draw(t, "reps"))
 	}
 	c.TextBytes = len(payload)
 	var content string
-	content, c.Quotes = vgen.GenDeepHTML(t, c.Depth, payload)
+	content, c.Blocks = vgen.GenDeepHTML(t, c.Depth, payload, tags)
 	mt := rapid.SampledFrom([]string{"text/html", "text/html", "text/markdown", "text/plain", "text/gemini"}).Draw(t, "deepmt")
 	obj := map[string]any{"type": "Note", "content": content, "mediaType": mt}
 	if rapid.Bool().Draw(t, "asactor") {
@@ -234,8 +287,12 @@ func FuzzRender(f *testing.F) {
 		}
 		content := strings.ToValidUTF8(string(body), "�")
 		obj := map[string]any{"type": "Note", "content": content, "mediaType": vgen.MediaTypes[int(mt)%4]}
-		// depth is over-approximated by the number of tags / quote markers
-		depth := strings.Count(content, "<")/2 + strings.Count(content, ">")/2
-		fz.Do(t, Case{Doc: marshal(obj), Widths: []int{int(width), 80}, Nums: []int{0, 1, 2}, Depth: depth, TextBytes: len(content)})
+		// block depth is over-approximated by the number of block tags / markdown quote markers
+		low := strings.ToLower(content)
+		blocks := strings.Count(content, "\n>") + strings.Count(content, "> >")
+		for _, tag := range []string{"<pre", "<blockquote", "<h1", "<h2", "<h3", "<h4", "<h5", "<h6", "<ul", "<li", "<div", "<p"} {
+			blocks += strings.Count(low, tag)
+		}
+		fz.Do(t, Case{Doc: marshal(obj), Widths: []int{int(width), 80}, Nums: []int{0, 1, 2}, Depth: blocks, Blocks: blocks, TextBytes: len(content)})
 	})
 }
